@@ -27,13 +27,22 @@ func (n *HNAL) nal() []byte {
 	b := expand(n.Seed, 0, n.Len)
 	hb := h265rtp.Hdr{F: n.F, Type: n.Type, LayerID: n.Layer, TID: n.TID}.Bytes()
 	b[0], b[1] = hb[0], hb[1]
+	if n.Seed&3 == 0 {
+		step := 5 + int(n.Seed>>8)%7
+		for i := 3; i+3 < len(b); i += step {
+			b[i], b[i+1] = 0, 0
+			if n.Seed&4 == 0 {
+				b[i+2] = 3
+			}
+		}
+	}
 	zeros := 0
 	if b[1] == 0 {
 		zeros = 1
 	}
 	for i := 2; i < len(b); i++ {
-		if zeros >= 2 && b[i] <= 3 {
-			b[i] |= 0x04
+		if zeros >= 2 && b[i] <= 2 {
+			b[i] |= 0x04 // 00 00 00/01/02 cannot occur inside a NAL unit; 00 00 03 (emulation prevention) can
 		}
 		if b[i] == 0 {
 			zeros++
@@ -615,6 +624,11 @@ func genH265PayCase(t *rapid.T) *H265PayCase {
 		}
 		c.Calls = append(c.Calls, units)
 	}
+	if rapid.IntRange(0, 59).Draw(t, "jumbo") == 0 {
+		c.MTU = uint16(rapid.SampledFrom([]int{1200, 1500, 9000, 40000, 65535}).Draw(t, "jumbomtu"))
+		call := c.Calls[rapid.IntRange(0, len(c.Calls)-1).Draw(t, "jumbocall")]
+		call[rapid.IntRange(0, len(call)-1).Draw(t, "jumbounit")].Len = rapid.SampledFrom([]int{65530, 65531, 65532, 65533, 65534, 65535, 65536, 65537, 65540, 65636, 70000, 131072}).Draw(t, "jumbolen")
+	}
 
 	return c
 }
@@ -665,7 +679,7 @@ func genH265DecCase(t *rapid.T) *H265DecCase {
 	return c
 }
 
-const ruleC14 = "payloader: 1-2 calls of 1-6 HEVC NAL units (types 0-47, layer 0-63, TID 1-7, F=1 rarely, sizes 3 bytes to several MTUs biased to MTU-4..MTU+4 and 2+k*(MTU-3)+-1, bodies free of start-code emulation), MTU >= 4 (>= 6 with DONL) biased to the floor and small values, SkipAggregation x AddDONL; every payload is parsed by an independent RFC 7798 parser and by H265Packet (all accessors must agree): <= MTU, single = unit (+DONL), AP type 48/F=0/min layer/min TID/>=2 units, FU trains >=2 with S/E placement and FuType/F/layer/TID preserved, DONL placement, IsPartitionHead, byte-exact reassembly. decoder: reference-built single/AP(2-6 units)/FU(start,middle,end)/PACI(+TSCI) payloads with and without DONL/DOND and every truncation: too-short ones rejected, others read field by field as the reference parser. accessors: all 2^16 payload headers, 2^8 FU headers, 2^16 PACI field words, TSCI triples (2^24 in thorough). Non-trivial = AP together with an FU train, unit length within the single-packet threshold window, AP>=3 units with DONL, PACI with TSCI, truncation, every accessor value; distinct = FNV-64 of the JSON case"
+const ruleC14 = "payloader: 1-2 calls of 1-6 HEVC NAL units (types 0-47, layer 0-63, TID 1-7, F=1 rarely, sizes 3 bytes to several MTUs biased to MTU-4..MTU+4 and 2+k*(MTU-3)+-1 (one case in 60 holds a unit of 65530-131072 bytes), bodies free of start-code emulation), MTU >= 4 (>= 6 with DONL) biased to the floor and small values, SkipAggregation x AddDONL; every payload is parsed by an independent RFC 7798 parser and by H265Packet (all accessors must agree): <= MTU, single = unit (+DONL), AP type 48/F=0/min layer/min TID/>=2 units, FU trains >=2 with S/E placement and FuType/F/layer/TID preserved, DONL placement, IsPartitionHead, byte-exact reassembly. decoder: reference-built single/AP(2-6 units)/FU(start,middle,end)/PACI(+TSCI) payloads with and without DONL/DOND and every truncation: too-short ones rejected, others read field by field as the reference parser. accessors: all 2^16 payload headers, 2^8 FU headers, 2^16 PACI field words, TSCI triples (2^24 in thorough). Non-trivial = AP together with an FU train, unit length within the single-packet threshold window, AP>=3 units with DONL, PACI with TSCI, truncation, every accessor value; distinct = FNV-64 of the JSON case"
 
 func TestC14(t *testing.T) {
 	r := begin(t, "C14", "exploration", ruleC14)
